@@ -1,4 +1,4 @@
-from typing import Mapping, MutableMapping
+from typing import Any, Mapping, MutableMapping
 
 from spec_classes.methods.collections import MAPPING_METHODS
 from spec_classes.types import MISSING
@@ -30,6 +30,11 @@ class MappingMutator(CollectionAttrMutator):
         if not check_type(item, self.attr_spec.item_type):
             raise ValueError(
                 f"Attempted to add an invalid item `{repr(item)}` to `{self.attr_spec.qualified_name}`. Expected item of type `{type_label(self.attr_spec.item_type)}`."
+            )
+        key_type = getattr(self.attr_spec.type, "__args__", (Any,))[0]
+        if not check_type(index, key_type):
+            raise ValueError(
+                f"Attempted to add an item with an invalid key `{repr(index)}` to `{self.attr_spec.qualified_name}`. Expected key of type `{type_label(key_type)}`."
             )
         self.collection[index] = item
 
